@@ -8,7 +8,7 @@
 From RU Require Import Base.Prelude Base.Utf8 Model.AsciiSet Gen.Tables Model.PercentEncoding
   Model.HostT Model.UrlRecord Model.Parser Model.KnownC01 Spec.Whatwg
   Proofs.C01_Tables Proofs.C01_Override
-  Model.Setters Proofs.C08_Input Proofs.C01_EqRun Proofs.C01_EqEnc Proofs.C01_EqApi Proofs.C01_EqOpaque Proofs.C01_EqRef Proofs.C01_EqClasses
+  Model.Setters Proofs.C08_Input Proofs.C01_EqRun Proofs.C01_EqEnc Proofs.C01_EqApi Proofs.C01_EqOpaque Proofs.C01_EqRef Proofs.C01_EqPathSpec Proofs.C01_EqDots Proofs.C01_EqPath Proofs.C01_EqClasses
   Model.WF Proofs.C02_Opaque.
 
 (* (a) the percent-encode sets applied by the parser are the Standard's, for every byte *)
@@ -226,6 +226,54 @@ Example C01_eq_refs_nonvacuous :
   /\ match parse_url true toy_hp toy_hp toy_hd None (Some ex_b1) [122],
            spec_basic_url_parse toy_shp [122] (Some ex_sb1) with
      | PErr _, BFailure _ => True
+     | _, _ => False
+     end.
+Proof. vm_compute. repeat split. Qed.
+
+(* ---------- (g) path state: authority-less hierarchical URLs ---------- *)
+(* the dot-segment tests agree on every byte string *)
+Theorem C01_eq_dot_segments : forall s,
+  is_single_dot s = is_single_dot_segment s /\ is_double_dot s = is_double_dot_segment s.
+Proof. exact dot_segments_agree. Qed.
+Print Assumptions C01_eq_dot_segments.
+
+(* no base, non-special scheme, "scheme:/" not followed by a second '/': path state with dot-segment
+   removal (truncation of the serialization on the model side, popping a segment list on the
+   Standard's), "/." marker, query, fragment.  Every scalar-value input of the class, tab / LF / CR
+   anywhere.  Excluded, and only that (finding F-C01-9): a ".." that would pop a drive-letter-shaped
+   segment - `spath_ok` inside in_class_pathonly tests it on the Standard's own (segment list, buffer).
+   The result is a related base again. *)
+Theorem C01_eq_pathonly : forall dbg hp hpo hd ovr shp shs input,
+  usv_list input -> in_class_pathonly input = true ->
+  agree_rel dbg shs (parse_url dbg hp hpo hd ovr None input) (spec_basic_url_parse shp input None).
+Proof. exact class_pathonly. Qed.
+Check C01_eq_pathonly : forall dbg hp hpo hd ovr shp shs input,
+  usv_list input -> in_class_pathonly input = true ->
+  exists su, spec_basic_url_parse shp input None = BDone su
+    /\ (parse_url dbg hp hpo hd ovr None input = PErr Overflow
+        \/ exists u, parse_url dbg hp hpo hd ovr None input = POk u /\ related dbg shs u su).
+Print Assumptions C01_eq_pathonly.
+
+(* " A:/x/../y/./%2E%2e/z w/..//?q#f " -> a:/.//?q#f ;  "b:/p/%2e/<TAB>q/../r <e-acute>" -> b:/p/r%20%C3%A9 ;
+   "n:/C|/.." is NOT in the class and the two sides do differ on it (n:/C|/ vs n:/) *)
+Example C01_eq_pathonly_nonvacuous :
+  let i1 := [32; 65; 58; 47; 120; 47; 46; 46; 47; 121; 47; 46; 47; 37; 50; 69; 37; 50; 101; 47; 122; 32; 119;
+             47; 46; 46; 47; 47; 63; 113; 35; 102; 32] in
+  let i3 := [98; 58; 47; 112; 47; 37; 50; 101; 47; 9; 113; 47; 46; 46; 47; 114; 32; 233] in
+  let i2 := [110; 58; 47; 67; 124; 47; 46; 46] in
+  in_class_pathonly i1 = true /\ in_class_pathonly i3 = true /\ in_class_pathonly i2 = false
+  /\ match parse_url true toy_hp toy_hp toy_hd None None i1, spec_basic_url_parse toy_shp i1 None with
+     | POk u, BDone su => api_of_model true u = Some (spec_api_list toy_shs su)
+                          /\ q_href u = [97; 58; 47; 46; 47; 47; 63; 113; 35; 102]
+     | _, _ => False
+     end
+  /\ match parse_url true toy_hp toy_hp toy_hd None None i3, spec_basic_url_parse toy_shp i3 None with
+     | POk u, BDone su => api_of_model true u = Some (spec_api_list toy_shs su)
+                          /\ q_href u = [98; 58; 47; 112; 47; 114; 37; 50; 48; 37; 67; 51; 37; 65; 57]
+     | _, _ => False
+     end
+  /\ match parse_url true toy_hp toy_hp toy_hd None None i2, spec_basic_url_parse toy_shp i2 None with
+     | POk u, BDone su => q_href u = [110; 58; 47; 67; 124; 47] /\ get_href toy_shs su = [110; 58; 47]
      | _, _ => False
      end.
 Proof. vm_compute. repeat split. Qed.
